@@ -255,8 +255,8 @@ def o_ntm(md, word, budget):
             return levels, "reject"
         if any(c[0] in md["finals"] for c in cur):
             return levels, "accept"
-        if len(levels) > budget:
-            return levels, "limit"
+        if len(levels) > budget or len(cur) > 400:
+            return levels, "limit"     # (also stops a level explosion: the oracle only confirms, it never decides)
         nxt = set()
         for c in cur:
             nxt.update(o_succ(md, c) or [])
